@@ -244,10 +244,10 @@ def _correspondence(ctx):
     ot = _wf_filter(ctx, [{"collection": c, "audio_dir": None} for c in _only_through(random.Random("C02-only-through"))])
     ctx.tally("only-reachable-through-one-path", len(ot))
     ctx.run_cases(OPS["closure"], ot)
-    ctx.run_cases(OPS["closure"], _gen_cases(ctx, ctx.rng, ctx.budget(120, 800)))
+    ctx.run_cases(OPS["closure"], _gen_cases(ctx, ctx.rng, ctx.budget(120, 4000)))
     ctx.run_cases(OPS["closure"], _gen_cases(ctx, ctx.rng, ctx.budget(6, 30), size=2.5))
     # adapters.py as a state machine: random operation sequences on the real UserAdapter / TagAdapter
-    ctx.run_cases(OPS["adapter_ops"], _gen_adapter_ops(ctx.rng, ctx.budget(600, 6000)))
+    ctx.run_cases(OPS["adapter_ops"], _gen_adapter_ops(ctx.rng, ctx.budget(600, 20000)))
 
 
 def run(ctx):
